@@ -413,12 +413,66 @@ func HarnessC11Arr() {
 	vAssert(hSameInts(hIntsOf(recv, "receiver"), vals), "receiver-unchanged")
 }
 
-var c11NumFuncs = []string{"int.float", "int.abs", "float.int", "float.abs", "float.ceil", "float.floor", "float.round", "bool.binary", "bool.then"}
+// refDigits: number of decimal digits of |v|, by thresholds (independent of any formatting routine).
+func refDigits(v int64) int64 {
+	u := uint64(v)
+	if v < 0 {
+		u = -u
+	}
+	n := int64(1)
+	for p := uint64(10); n < 20; n++ {
+		if u < p {
+			return n
+		}
+		if n == 19 {
+			break
+		}
+		p *= 10
+	}
+	return 20
+}
+
+// hBoundedInt: an int64 with at most D decimal digits (D = 19: every int64). Formatting a symbolic integer costs one
+// path per digit count and solver queries over nested divisions by 100, so the quick tier bounds the magnitude.
+func hBoundedInt(name string) int64 {
+	v := vInt64(name)
+	d := vParam("D")
+	if d < 19 {
+		lim := int64(1)
+		for i := 0; i < d; i++ {
+			lim *= 10
+		}
+		vAssume(v > -lim && v < lim)
+	}
+	return v
+}
+
+var c11NumFuncs = []string{"int.len", "int.str", "int.float", "int.abs", "float.int", "float.abs", "float.ceil", "float.floor", "float.round", "bool.binary", "bool.then"}
 
 // HarnessC11Num: numeric conversions on unconstrained int64 / finite float64 receivers with |v| < 2^52.
 func HarnessC11Num() {
 	name := c11NumFuncs[vChoice("func", len(c11NumFuncs))]
 	switch name {
+	case "int.len":
+		// for every int64: len() is the number of decimal digits (the sign is not counted)
+		v := hBoundedInt("v")
+		res, err := hCall(object.INT_OBJ, "len", &object.Int{Value: v})
+		o, ok := res.(*object.Int)
+		vAssert(err == nil && ok, "len-returns-integer")
+		vAssert(o.Value == refDigits(v), "len-counts-the-decimal-digits")
+	case "int.str":
+		v := hBoundedInt("v")
+		res, err := hCall(object.INT_OBJ, "str", &object.Int{Value: v})
+		out := hStrResult(res, err, "str")
+		want := refDigits(v)
+		if v < 0 {
+			want++
+			vAssert(out[0] == '-', "str-of-a-negative-number-starts-with-minus")
+		}
+		vAssert(int64(len(out)) == want, "str-has-one-character-per-digit-plus-sign")
+		for i := 0; i < len(out); i++ {
+			vAssert((out[i] >= '0' && out[i] <= '9') || (i == 0 && out[i] == '-'), "str-consists-of-decimal-digits")
+		}
 	case "int.float":
 		v := vInt64("v")
 		res, err := hCall(object.INT_OBJ, "float", &object.Int{Value: v})
